@@ -748,6 +748,7 @@ func compareReplays(w *World, def *CheckDef, r *Runner, rep *Report) {
 		mon := NewMonC19(r2)
 		r2.Mons = []Monitor{mon}
 		r2.ProbeEvery = 0
+		r2.Ghost = k%2 == 0 // every other replay is interleaved with discarded-branch executions of each step
 		func() {
 			defer func() {
 				if p := recover(); p != nil {
@@ -778,6 +779,10 @@ func compareReplays(w *World, def *CheckDef, r *Runner, rep *Report) {
 			return
 		}
 		rep.Class("C19.replays-compared")
+		if r2.Ghost {
+			rep.Class("C19.replay-with-ghost-branches")
+			rep.Count("C19.ghost-executions", rep2.Counts["C19.ghost-executions"])
+		}
 	}
 }
 
